@@ -18,7 +18,7 @@ import (
 
 var propPkgs = map[string][]string{
 	"C01": {"generator"}, "C02": {"generator"}, "C05": {"generator"}, "C06": {"generator"}, "C07": {"generator", "cmd/swagger/commands/diff"},
-	"C08": {"generator"}, "C10": {"generator"}, "C11": {"generator"},
+	"C08": {"generator"}, "C10": {"generator"}, "C11": {"generator", "cmd/swagger/commands/generate"},
 	"C12": {"cmd/swagger/commands/diff"}, "C13": {"cmd/swagger/commands/diff"}, "C14": {"cmd/swagger/commands/diff"},
 	"C15": {"cmd/swagger/commands/diff", "cmd/swagger/commands"},
 	"C16": {"codescan"}, "C17": {"codescan"},
